@@ -156,7 +156,7 @@ pub fn exec(op: &str, a: &[&str]) -> Option<String> {
     let op = &format!("ev.{name}")[..];
     let (ctx_s, expr_s) = match (op, a.len()) {
         ("ev.sched", 3) | ("ev.state", 3) | ("ev.next", 3) => (a[1], a[2]),
-        ("ev.iter", 4) | ("ev.nextw", 4) | ("ev.nextpair", 4) | ("ev.bstate", 4) => (a[2], a[3]),
+        ("ev.iter", 4) | ("ev.nextw", 4) | ("ev.nextpair", 4) | ("ev.bstate", 4) | ("ev.hint", 4) => (a[2], a[3]),
         ("ev.bnext", 5) | ("ev.biter", 5) => (a[3], a[4]),
         _ => return None,
     };
@@ -309,6 +309,28 @@ pub fn exec(op: &str, a: &[&str]) -> Option<String> {
             let mut spec_b = spec;
             spec_b.bound_ns = None;
             Some(format!("{} {} | {}", ctx_dump(&spec_b, &[]), astd, r.unwrap_or_else(|p| p)))
+        }
+        "ev.hint" => {
+            // the day-skipping hint itself (hook `verif_next_change_hint`), for `n` consecutive days
+            // from day `d0`: the iterator trusts it each time a day's schedule is used up
+            let d0: i64 = a[0].parse().ok()?;
+            let n: i64 = a[1].parse().ok()?;
+            let oh = oh.with_context(ctx);
+            let r = catch(|| {
+                let mut out = Vec::new();
+                for d in d0..d0 + n {
+                    let Some(date) = ast::date_of(d) else {
+                        out.push("x".to_string());
+                        continue;
+                    };
+                    out.push(match oh.verif_next_change_hint(date) {
+                        None => "none".to_string(),
+                        Some(h) => ast::day_num(h).to_string(),
+                    });
+                }
+                out.join(" ")
+            });
+            Some(format!("{} {} | {}", ctx_dump(&spec, &[]), astd, r.unwrap_or_else(|p| p)))
         }
         "ev.next" => {
             let t = ast::parse_instant(a[0])?;
@@ -780,6 +802,26 @@ pub fn gen_for(suite: &str, tier: &str, rng: &mut Rng, emit: &mut dyn FnMut(Stri
                 }
             }
             if suite == "c02" {
+                // the hint itself, day by day (hook): a month around an expression-aware day for the
+                // generated expressions, the week around every boundary day for the hint templates;
+                // thorough: every day of two years for 300 expressions
+                for _ in 0..scale(1_500, 20_000) {
+                    let e = if rng.chance(1, 4) { gen_expr::hint_template(rng) } else { gen_expr::expr(rng, &cfg) };
+                    let ctx = gen_ctx(rng, &e, false);
+                    let d0 = gen_day_for(rng, &ctx, &e) - rng.range(0, 20);
+                    emit(format!("c02.hint {d0} 30 {ctx} {}", enc(&e)));
+                }
+                for (ee, ctx, d) in hint_sweep(thorough) {
+                    emit(format!("c02.hint {} 5 {ctx} {ee}", d - 2));
+                }
+                if thorough {
+                    for _ in 0..300 {
+                        let e = if rng.chance(1, 3) { gen_expr::hint_template(rng) } else { gen_expr::expr(rng, &cfg) };
+                        let ctx = gen_ctx(rng, &e, false);
+                        let y = *rng.pick(&[2020, 2023, 2024, 2027, 2032]);
+                        emit(format!("c02.hint {} 731 {ctx} {}", ymd(y, 1, 1), enc(&e)));
+                    }
+                }
                 // the deterministic hint sweep: a window that starts ON each boundary day
                 for (i, (ee, ctx, d)) in hint_sweep(thorough).into_iter().enumerate() {
                     let ns = [0i64, 43_200_000_000_000, 86_399_999_999_999][i % 3];
